@@ -132,3 +132,19 @@ def vtt_read_tag_ann(cps: list[int]) -> str:
     post: _ == ""
     """
     return _check("x<" + text_of(cps) + " Ann>y</v>")
+
+
+def vtt_read_voice_classes(n: int, c: int) -> str:
+    """
+    pre: 0 <= n <= 3 and ((97 <= c <= 122) or (48 <= c <= 57) or c == 95)
+    post: _ == ""
+    """
+    # <v.c1.c2.c3 Ann>: a voice tag with 0-3 classes keeps its annotation as the 'Ann: ' prefix
+    tag = "<v"
+    if n >= 1:
+        tag += "." + chr(c) + "z"
+    if n >= 2:
+        tag += ".loud"
+    if n >= 3:
+        tag += ".x_1"
+    return _check("x" + tag + " Ann>y</v>")
